@@ -176,6 +176,9 @@ type WorldCfg struct {
 	Threshold int    // notarization threshold_by_count (percent)
 	SelfType  string // "miner" (default) | "sharder"
 	NoDKG     bool   // skip DKG (C41)
+	// OldMBStart > 0: the chain stores two magic blocks, an older one from round 0 whose sharders are
+	// Sharders + OldSharders, and the current one from round OldMBStart whose sharders are Sharders only
+	OldMBStart int64
 }
 
 type World struct {
@@ -190,6 +193,11 @@ type World struct {
 	Sharders []*Peer // [0] is the NUT when SelfType == sharder
 	Retired  []*Peer // registered nodes that are not members of the magic block
 	Unknown  []*Peer // never registered anywhere
+	// miner-type nodes the NUT knows (node registry) that are in no magic block of this chain
+	// (members of another / a later magic block, or removed by a view change)
+	OutsideMiners []*Peer
+	OldSharders   []*Peer            // sharders of the older magic block only (WorldCfg.OldMBStart)
+	OldMB         *block.MagicBlock // nil unless OldMBStart > 0
 	Self     *Peer
 
 	mu  sync.Mutex
@@ -263,6 +271,12 @@ func NewWorld(cfg WorldCfg) *World {
 		w.Retired = append(w.Retired, newPeer("retired", node.NodeTypeSharder, 100+i, keys.Child(fmt.Sprintf("r%d", i))))
 		w.Unknown = append(w.Unknown, newPeer("unknown", node.NodeTypeSharder, 200+i, keys.Child(fmt.Sprintf("u%d", i))))
 	}
+	for i := 0; i < 2; i++ {
+		w.OutsideMiners = append(w.OutsideMiners, newPeer("outside-miner", node.NodeTypeMiner, 300+i, keys.Child(fmt.Sprintf("om%d", i))))
+		if cfg.OldMBStart > 0 {
+			w.OldSharders = append(w.OldSharders, newPeer("old-sharder", node.NodeTypeSharder, 400+i, keys.Child(fmt.Sprintf("os%d", i))))
+		}
+	}
 	w.Self = w.Miners[0]
 	if cfg.SelfType == "sharder" {
 		w.Self = w.Sharders[0]
@@ -312,7 +326,12 @@ func NewWorld(cfg WorldCfg) *World {
 			panic(err)
 		}
 	}
-	for _, p := range w.Retired {
+	for _, p := range w.OldSharders {
+		if err := mb.Sharders.AddNode(p.Node); err != nil {
+			panic(err)
+		}
+	}
+	for _, p := range append(append([]*Peer{}, w.Retired...), w.OutsideMiners...) {
 		// a known node (global registry) that is not part of the magic block
 		if err := p.Node.SetPublicKey(p.Node.PublicKey); err != nil {
 			panic(err)
@@ -341,6 +360,30 @@ func NewWorld(cfg WorldCfg) *World {
 		if err := mc.SetDKG(w.Self.DKG, mb.StartingRound); err != nil {
 			panic(err)
 		}
+	}
+	if cfg.OldMBStart > 0 {
+		// the current magic block: same miners, the old-only sharders are gone
+		mb2 := block.NewMagicBlock()
+		mb2.Miners = node.NewPool(node.NodeTypeMiner)
+		mb2.Sharders = node.NewPool(node.NodeTypeSharder)
+		for _, p := range w.Miners {
+			if err := mb2.Miners.AddNode(p.Node); err != nil {
+				panic(err)
+			}
+		}
+		for _, p := range w.Sharders {
+			if err := mb2.Sharders.AddNode(p.Node); err != nil {
+				panic(err)
+			}
+		}
+		mb2.N, mb2.T, mb2.K = mb.N, mb.T, mb.K
+		mb2.Mpks = mb.Mpks
+		mb2.MagicBlockNumber = 2
+		mb2.StartingRound = cfg.OldMBStart
+		mb2.PreviousMagicBlockHash = mb.Hash
+		mb2.Hash = mb2.GetHash()
+		c.SetMagicBlock(mb2)
+		w.OldMB, w.MB = mb, mb2
 	}
 	return w
 }
